@@ -19,6 +19,18 @@ func rewriteStubCalls(p *Program, dir string, replace map[string]string) error {
 	if p == nil || p.gopkg == nil {
 		return fmt.Errorf("rewrite: no loaded package")
 	}
+	if p.rewritten != nil {
+		// the ASTs were rewritten in place by an earlier call: reuse its output
+		for fname, content := range p.rewritten {
+			out := filepath.Join(dir, "rw_"+filepath.Base(fname))
+			if err := os.WriteFile(out, content, 0o644); err != nil {
+				return err
+			}
+			replace[fname] = out
+		}
+		return nil
+	}
+	p.rewritten = map[string][]byte{}
 	info := p.gopkg.TypesInfo
 	for i, file := range p.gopkg.Syntax {
 		fname := p.gopkg.CompiledGoFiles[i]
@@ -97,6 +109,7 @@ func rewriteStubCalls(p *Program, dir string, replace map[string]string) error {
 			return err
 		}
 		replace[fname] = out
+		p.rewritten[fname] = append([]byte{}, buf.Bytes()...)
 	}
 	return nil
 }
